@@ -58,8 +58,14 @@ IsRef(x) == x[1] = "ref"
 (* Orders.  Strings compare by code point (lexicographic).  The            *)
 (* specification does not fix the order in which the members of an object  *)
 (* are enumerated (hash wildcard, keys(), values()); the evaluator takes    *)
-(* the order as parameter o \in {"asc","desc"} (by key) and the generator  *)
-(* marks a case order-dependent when the two results differ.               *)
+(* an environment o = [ord |-> "asc" or "desc" (by key), xf |-> S] and the  *)
+(* generator marks a case order-dependent when the two results differ.     *)
+(* o.xf is a set of names of KNOWN DEVIATIONS of the implementation under  *)
+(* test; where the specification's result and the named deviant reading    *)
+(* differ, the result is DC(name) instead of the specified one, so that a  *)
+(* check can stay green while the finding is open (spec/gen/MC_C13.tla     *)
+(* constants ExcludeFilterOnNonArray / ExcludeMergeNoOverride; see         *)
+(* notes/C13.md).  With o.xf = {} the evaluator is the specification.      *)
 RECURSIVE SeqLess(_, _)
 SeqLess(a, b) == IF b = <<>> THEN FALSE
                  ELSE IF a = <<>> THEN TRUE
@@ -78,10 +84,11 @@ RECURSIVE SortPairs(_, _)
 SortPairs(ps, n) == IF n = 0 THEN <<>> ELSE InsStable(SortPairs(ps, n - 1), ps[n])
 Seconds(ps) == [i \in 1..Len(ps) |-> ps[i][2]]
 
-KeySeq(f, o) == LET ks == SetToSeq(DOMAIN f)
-                    ps == [i \in 1..Len(ks) |-> <<JStr(ks[i]), ks[i]>>]
-                    asc == Seconds(SortPairs(ps, Len(ps)))
-                IN IF o = "asc" THEN asc ELSE Reverse(asc)
+KeySeqOrd(f, ord) == LET ks == SetToSeq(DOMAIN f)
+                         ps == [i \in 1..Len(ks) |-> <<JStr(ks[i]), ks[i]>>]
+                         asc == Seconds(SortPairs(ps, Len(ps)))
+                     IN IF ord = "asc" THEN asc ELSE Reverse(asc)
+KeySeq(f, o) == KeySeqOrd(f, o.ord)
 
 -----------------------------------------------------------------------------
 (* "false-like" values (or-expression, and-expression, not-expression,     *)
@@ -133,6 +140,18 @@ Compare(op, l, r) ==
                 ELSE JNull
 
 -----------------------------------------------------------------------------
+(* Sub-expressions of a node (arguments, conditions and right-hand sides included) *)
+Children(e) ==
+  CASE e[1] \in {"cur", "fld", "lit", "raw"} -> <<>>
+    [] e[1] \in {"par", "not", "ref", "idx"} -> <<e[2]>>
+    [] e[1] \in {"sub", "pipe", "or", "and", "prj", "vpr", "flt"} -> <<e[2], e[3]>>
+    [] e[1] = "cmp" -> <<e[3], e[4]>>
+    [] e[1] = "slc" -> <<e[2], e[4]>>
+    [] e[1] = "fil" -> <<e[2], e[3], e[4]>>
+    [] e[1] = "mls" -> e[2]
+    [] e[1] = "mhs" -> [i \in 1..Len(e[2]) |-> e[2][i][2]]
+    [] e[1] = "fn" -> e[3]
+
 (* Built-in functions: names, arities (variadic: merge, not_null)          *)
 KnownFns == {"abs", "avg", "ceil", "contains", "ends_with", "floor", "join", "keys", "length", "map", "max",
              "max_by", "merge", "min", "min_by", "not_null", "reverse", "sort", "sort_by", "starts_with",
@@ -176,6 +195,18 @@ MergeAll(s, n) == IF n = 0 THEN EmptyFn
                   ELSE LET f == MergeAll(s, n - 1)  g == s[n][2]
                        IN [k \in (DOMAIN f) \cup (DOMAIN g) |-> IF k \in DOMAIN g THEN g[k] ELSE f[k]]
 
+(* Known deviation "merge-no-override": a member of a later argument does not replace an existing     *)
+(* member when its value is an array, an object or a long string, or when the later argument was built  *)
+(* by a multi-select-hash.  TRUE iff some member the specification overrides is affected.              *)
+RECURSIVE HasHash(_)
+HasHash(e) == e[1] = "mhs" \/ \E i \in 1..Len(Children(e)) : HasHash(Children(e)[i])
+MergeNoOverrideDiffers(a, args) ==
+  \E j \in 2..Len(a) : \E i \in 1..(j - 1) : \E k \in (DOMAIN a[i][2]) \cap (DOMAIN a[j][2]) :
+     /\ a[i][2][k] # a[j][2][k]
+     /\ \/ a[j][2][k][1] \in {"arr", "obj"}
+        \/ (a[j][2][k][1] = "str" /\ Len(a[j][2][k][2]) >= 4)
+        \/ HasHash(args[j])
+
 TypeName(v) == CASE v[1] = "int" -> <<110,117,109,98,101,114>>          \* "number"
                  [] v[1] = "str" -> <<115,116,114,105,110,103>>          \* "string"
                  [] v[1] = "bool" -> <<98,111,111,108,101,97,110>>       \* "boolean"
@@ -193,7 +224,15 @@ Extreme(s, n, wantMax) == IF n = 1 THEN s[1]
 -----------------------------------------------------------------------------
 (* The evaluator.  Ev(e, v, o): expression e against current node v.       *)
 RECURSIVE Ev(_, _, _), ProjectOver(_, _, _, _, _), FilterOver(_, _, _, _, _), EvList(_, _, _, _, _),
-          EvHash(_, _, _, _, _), EvArgs(_, _, _, _, _), MapOver(_, _, _, _, _), Call(_, _, _, _)
+          EvHash(_, _, _, _, _), EvArgs(_, _, _, _, _), MapOver(_, _, _, _, _), Call(_, _, _, _),
+          FilterOnValueDiffers(_, _, _, _)
+
+(* Known deviation "filter-on-non-array": the filter is applied to a non-array left-hand side as if it  *)
+(* were a single element (condition against the value itself; if it holds, the right-hand side applied *)
+(* to the value).  TRUE iff that reading gives anything but the specified null.                        *)
+FilterOnValueDiffers(l, cond, rhs, o) ==
+  LET c == Ev(cond, l, o) IN
+  IF Abn(c) THEN TRUE ELSE IF ~Truthy(c) THEN FALSE ELSE Ev(rhs, l, o) # JNull
 
 (* Projection (wildcard, slice, flatten, filter expressions): the right-   *)
 (* hand side is applied to every element; null results are dropped         *)
@@ -290,7 +329,9 @@ Call(name, args, v, o) ==
           ELSE TypeErr
      \* merge(object...): later arguments win
      [] name = "merge" -> IF a = <<>> THEN DC("zero-arguments")
-                          ELSE IF AllObj(a) THEN JObj(MergeAll(a, Len(a))) ELSE TypeErr
+                          ELSE IF ~AllObj(a) THEN TypeErr
+                          ELSE IF "merge-no-override" \in o.xf /\ MergeNoOverrideDiffers(a, args) THEN DC("merge-no-override")
+                          ELSE JObj(MergeAll(a, Len(a)))
      \* not_null(any...): first argument that is not null, else null
      [] name = "not_null" -> IF a = <<>> THEN DC("zero-arguments")
                              ELSE IF \E i \in 1..Len(a) : IsRef(a[i]) THEN DC("expref-as-any")
@@ -344,8 +385,12 @@ Ev(e, v, o) ==
                        IF Abn(l) THEN l ELSE IF l[1] # "arr" THEN JNull
                        ELSE IF StepZero(e[3]) THEN Err("invalid-value")
                        ELSE Project(SliceOf(l[2], e[3]), e[4], o)
+    \* "A filter expression is only defined for a JSON array.  Attempting to evaluate a filter expression
+    \* against any other type will return null."
     [] e[1] = "fil" -> LET l == Ev(e[2], v, o) IN
-                       IF Abn(l) THEN l ELSE IF l[1] # "arr" THEN JNull
+                       IF Abn(l) THEN l
+                       ELSE IF l[1] # "arr" THEN (IF "filter-on-non-array" \in o.xf /\ FilterOnValueDiffers(l, e[3], e[4], o)
+                                                  THEN DC("filter-on-non-array") ELSE JNull)
                        ELSE LET k == FilterOver(l[2], 1, e[3], o, <<>>) IN IF Abn(k) THEN k ELSE Project(k[2], e[4], o)
     \* or / and: the left value if it decides, else the right value.  The specification does not say
     \* that the other side is left unevaluated: if it would fail, the outcome is don't-care.
@@ -371,42 +416,47 @@ Ev(e, v, o) ==
 (* never evaluated (e.g. inside a projection over an empty list), so for   *)
 (* such an expression an error is always acceptable.                       *)
 RECURSIVE StaticErr(_)
-AnyStatic(s) == \E i \in 1..Len(s) : StaticErr(s[i])
-StaticErr(e) ==
-  CASE e[1] \in {"cur", "fld", "lit", "raw"} -> FALSE
-    [] e[1] \in {"par", "not", "ref"} -> StaticErr(e[2])
-    [] e[1] \in {"sub", "pipe", "or", "and", "prj", "vpr", "flt"} -> StaticErr(e[2]) \/ StaticErr(e[3])
-    [] e[1] = "idx" -> StaticErr(e[2])
-    [] e[1] = "cmp" -> StaticErr(e[3]) \/ StaticErr(e[4])
-    [] e[1] = "slc" -> StepZero(e[3]) \/ StaticErr(e[2]) \/ StaticErr(e[4])
-    [] e[1] = "fil" -> StaticErr(e[2]) \/ StaticErr(e[3]) \/ StaticErr(e[4])
-    [] e[1] = "mls" -> AnyStatic(e[2])
-    [] e[1] = "mhs" -> \E i \in 1..Len(e[2]) : StaticErr(e[2][i][2])
-    [] e[1] = "fn" -> e[2] \notin KnownFns \/ ~ArityOk(e[2], Len(e[3])) \/ AnyStatic(e[3])
+StaticErr(e) == \/ (e[1] = "fn" /\ (e[2] \notin KnownFns \/ ~ArityOk(e[2], Len(e[3]))))
+                \/ (e[1] = "slc" /\ StepZero(e[3]))
+                \/ \E i \in 1..Len(Children(e)) : StaticErr(Children(e)[i])
 
 (* Does the expression enumerate object members (result may depend on the  *)
 (* unspecified member order)?                                              *)
 RECURSIVE UsesOrder(_)
-AnyOrder(s) == \E i \in 1..Len(s) : UsesOrder(s[i])
-UsesOrder(e) ==
-  CASE e[1] \in {"cur", "fld", "lit", "raw"} -> FALSE
-    [] e[1] \in {"par", "not", "ref"} -> UsesOrder(e[2])
-    [] e[1] \in {"sub", "pipe", "or", "and", "prj", "flt"} -> UsesOrder(e[2]) \/ UsesOrder(e[3])
-    [] e[1] = "vpr" -> TRUE
-    [] e[1] = "idx" -> UsesOrder(e[2])
-    [] e[1] = "cmp" -> UsesOrder(e[3]) \/ UsesOrder(e[4])
-    [] e[1] = "slc" -> UsesOrder(e[2]) \/ UsesOrder(e[4])
-    [] e[1] = "fil" -> UsesOrder(e[2]) \/ UsesOrder(e[3]) \/ UsesOrder(e[4])
-    [] e[1] = "mls" -> AnyOrder(e[2])
-    [] e[1] = "mhs" -> \E i \in 1..Len(e[2]) : UsesOrder(e[2][i][2])
-    [] e[1] = "fn" -> e[2] \in {"keys", "values"} \/ AnyOrder(e[3])
+UsesOrder(e) == \/ e[1] = "vpr"
+                \/ (e[1] = "fn" /\ e[2] \in {"keys", "values"})
+                \/ \E i \in 1..Len(Children(e)) : UsesOrder(Children(e)[i])
 
 (* The observable of one search: result under ascending and descending     *)
 (* member enumeration.                                                      *)
-Search(e, d) == Ev(e, d, "asc")
-SearchDesc(e, d) == Ev(e, d, "desc")
+Env(ord, xf) == [ord |-> ord, xf |-> xf]
+Search(e, d) == Ev(e, d, Env("asc", {}))
+SearchDesc(e, d) == Ev(e, d, Env("desc", {}))
 
------------------------------------------------------------------------------
+-----------------------------------------------------------------------------------------------------------------------------------------------------
+(* KNOWN DEVIATIONS of the implementation under test that are triggered by *)
+(* the shape of the expression (notes/C13.md, suspected defects 3 and 4).  *)
+(* The generator can leave such expressions out (constants                 *)
+(* ExcludeNotBeforePipe / ExcludePipeIntoLiteral of spec/gen/MC_C13.tla).  *)
+(*  - "!" binds tighter than "|" (the specification's precedence list:     *)
+(*    pipe < or < and < unary not), so "!a | b" is "(!a) | b".  Affected:  *)
+(*    a pipe whose left operand has a not-expression outside parentheses   *)
+(*    and brackets.                                                         *)
+(*  - pipe-expression = expression "|" expression, and a literal or raw    *)
+(*    string is an expression.  Affected: a pipe whose right operand       *)
+(*    starts with a literal or a raw string.                               *)
+RECURSIVE ExposedNot(_), LeftLeaf(_), HasNotBeforePipe(_), HasPipeIntoLiteral(_)
+ExposedNot(l) == CASE l[1] = "not" -> TRUE
+                   [] l[1] \in {"and", "or", "pipe"} -> ExposedNot(l[2]) \/ ExposedNot(l[3])
+                   [] l[1] = "cmp" -> ExposedNot(l[3]) \/ ExposedNot(l[4])
+                   [] OTHER -> FALSE
+LeftLeaf(r) == CASE r[1] \in {"sub", "idx", "prj", "vpr", "flt", "slc", "fil", "pipe", "or", "and", "par"} -> LeftLeaf(r[2])
+                 [] r[1] = "cmp" -> LeftLeaf(r[3])
+                 [] OTHER -> r
+HasNotBeforePipe(e) == (e[1] = "pipe" /\ ExposedNot(e[2])) \/ \E i \in 1..Len(Children(e)) : HasNotBeforePipe(Children(e)[i])
+HasPipeIntoLiteral(e) == (e[1] = "pipe" /\ LeftLeaf(e[3])[1] \in {"lit", "raw"}) \/ \E i \in 1..Len(Children(e)) : HasPipeIntoLiteral(Children(e)[i])
+
+-----
 (* UN-PARSER.  Show(e) is the expression string (code points).             *)
 FnCps(n) ==
   CASE n = "abs" -> <<97,98,115>> [] n = "avg" -> <<97,118,103>> [] n = "ceil" -> <<99,101,105,108>>
@@ -448,7 +498,7 @@ JsonTextOf(v) ==
     [] v[1] = "int" -> IntText(v[2])
     [] v[1] = "str" -> Quoted(v[2])
     [] v[1] = "arr" -> <<91>> \o Commas([i \in 1..Len(v[2]) |-> JsonTextOf(v[2][i])], 1) \o <<93>>
-    [] v[1] = "obj" -> LET ks == KeySeq(v[2], "asc") IN
+    [] v[1] = "obj" -> LET ks == KeySeqOrd(v[2], "asc") IN
                        <<123>> \o Commas([i \in 1..Len(ks) |-> Quoted(ks[i]) \o <<58, 32>> \o JsonTextOf(v[2][ks[i]])], 1) \o <<125>>
 RECURSIVE ValueSafe(_)
 ValueSafe(v) == CASE v[1] = "str" -> StrSafe(v[2])
